@@ -254,8 +254,20 @@ class VC:
         self.obls.append(o)
         return o
 
+    CTOR_IDX = {'Int': 1, 'Bool': 2, 'F32': 3, 'F64': 4, 'Str': 5, 'Slice': 6, 'Time': 7}
+
+    def is_ref_type(self, ts):
+        if ts.startswith('func:'):
+            return True
+        return ts in self.prog.types and self.prog.under(ts)['k'] in ('ptr', 'map', 'chan', 'sig')
+
     def tid(self, ts):
-        return self.prog.type_id(ts)
+        """dynamic type id: 8*k + constructor index, so that the id determines the Any constructor"""
+        if self.is_ref_type(ts):
+            idx = 0
+        else:
+            idx = self.CTOR_IDX[self.sort_of(ts)]
+        return 8 * self.prog.type_id(ts) + idx
 
     def strlit(self, s):
         if s not in self.strlits:
@@ -361,6 +373,13 @@ class VC:
                 self.assume('(and (<= %s %s) (<= %s %s))' % (num(lo), v.term, v.term, num(hi)), guard)
             elif self.prog.types.get(v.ts) and self.prog.under(v.ts)['k'] in ('ptr', 'map', 'sig', 'chan'):
                 self.assume('(<= 0 %s)' % v.term, guard)
+        elif v.sort == 'Any':
+            x = v.term
+            if x != 'a.nil':
+                self.assume('(and (=> ((_ is a.ptr) %s) (= (mod (a.ptr.t %s) 8) 0)) (=> ((_ is a.int) %s) (= (mod (a.int.t %s) 8) 1)) (=> ((_ is a.bool) %s) (= (mod (a.bool.t %s) 8) 2)) '
+                            '(=> ((_ is a.f32) %s) (= (mod (a.f32.t %s) 8) 3)) (=> ((_ is a.f64) %s) (= (mod (a.f64.t %s) 8) 4)) '
+                            '(=> ((_ is a.str) %s) (= (mod (a.str.t %s) 8) 5)) (=> ((_ is a.slice) %s) (= (mod (a.slice.t %s) 8) 6)) '
+                            '(=> ((_ is a.time) %s) (= (mod (a.time.t %s) 8) 7)))' % ((x,) * 16), guard)
         elif v.sort == 'Slice':
             t = v.term
             self.assume('(and (<= 0 (s.off %s)) (<= 0 (s.len %s)) (<= (s.len %s) (s.cap %s)) (<= (+ (s.off %s) (s.cap %s)) %d) (<= 0 (s.arr %s)))'
